@@ -1152,6 +1152,44 @@ fn class_and_random(cx: &mut Ctx, n_rand: usize, full_cache: &[u8]) {
             do_cache_load(cx, &c, text.as_bytes(), lim);
         }
     }
+    // long text with a multi-byte character at every byte offset (a parser that cuts its input at a fixed byte position --
+    // for a fixed-width field or to shorten a log line -- must not cut inside a character): one 4-byte character, which
+    // straddles the three byte positions behind its offset, at every offset 0..=300 of a 300-byte line of hex digits / of
+    // letters that are not hex digits / behind a complete multiaddress (seeded/C17-8)
+    {
+        let wv = json!(["class-utf8-offset"]);
+        let valid = maddr_segment(&mut cx.r, "fullquic");
+        for off in 0..=300usize {
+            for (fi, filler) in ["a", "x", "/"].iter().enumerate() {
+                let mut s = filler.repeat(off);
+                s.push('𝄞');
+                s.push_str(&filler.repeat(300 - off));
+                if fi == 2 {
+                    // an address first, then the line goes on
+                    s = format!("{valid}{}", &s[valid.len().min(off)..]);
+                }
+                let m = off as u64;
+                if fi < 2 {
+                    do_reg(cx, &Call { parser: "reg_from_hex", word: &wv, m, src: "class", fmt: false, pw: "na" }, &s, None);
+                    do_pad(cx, &Call { parser: "pad_from_hex", word: &wv, m, src: "class", fmt: false, pw: "na" }, &s, None);
+                    do_addr(cx, &Call { parser: "str_to_addr", word: &wv, m, src: "class", fmt: false, pw: "na" }, &s, None);
+                    do_dmc(cx, &Call { parser: "dmc_from_hex", word: &wv, m, src: "class", fmt: false, pw: "na" }, &s, None);
+                    do_decrypt(cx, &Call { parser: "decrypt", word: &wv, m, src: "class", fmt: false, pw: "empty" }, &s, "", None);
+                    do_signing_key(cx, &Call { parser: "signing_key", word: &wv, m, src: "class", fmt: false, pw: "na" }, &s, None);
+                    do_atto(cx, &Call { parser: "atto_from_str", word: &wv, m, src: "class", fmt: false, pw: "na" }, &s.replace('a', "1").replace('x', "."));
+                    if off <= 40 {
+                        let short: String = s.chars().take(off + 2).collect::<String>().replace('a', "1").replace('x', "-");
+                        port_events(cx, &Call { parser: "port_parse", word: &wv, m, src: "class", fmt: false, pw: "na" }, &short);
+                    }
+                }
+                do_craft(cx, &Call { parser: "craft_multiaddr", word: &wv, m, src: "class", fmt: false, pw: "na" }, &s, off % 2 == 0);
+                if off % 3 == 0 {
+                    env_peers_event(cx, std::ffi::OsStr::new(&s), "class");
+                    do_registry(cx, &Call { parser: "registry_from_json", word: &wv, m, src: "class", fmt: false, pw: "na" }, s.as_bytes());
+                }
+            }
+        }
+    }
     // random strings and bytes into everything
     let wr = json!(["random"]);
     for i in 0..n_rand {
